@@ -164,8 +164,12 @@ void AutomationMgr::setSlotSub(int slot_id, int par, float value)
 
     char msg[256] = {0};
     if(type == 'i' || type == 'c') {
-        //clamp against the exact bounds: a float cannot hold every int
-        double v = value*(b-a) + a;
+        //map and clamp in double from the exact bounds: a float cannot hold
+        //every int, nor resolve a narrow range far from zero
+        const double center = (au.param_min+au.param_max)
+                              *(0.5 + au.map.offset/100.0);
+        const double range  = (au.param_max-au.param_min)*au.map.gain/100.0;
+        double v = center - range/2.0 + value*range;
         if(v > au.param_max)
             v = au.param_max;
         else if(v < au.param_min)
